@@ -22,8 +22,8 @@ fn parse_alpha(s: &str) -> Vec<u8> {
    }
 }
 
-/// returns (rejected, consumed, failed obligations)
-fn run_one(f: hc::Runner, bytes: &[u8]) -> (bool, usize, Vec<String>) {
+/// returns (rejected, consumed, failed obligations, decoded values)
+fn run_one(f: hc::Runner, bytes: &[u8]) -> (bool, usize, Vec<String>, Vec<String>) {
    let mut src = VecSrc::new(bytes.to_vec());
    let mut rep = Report::new();
    let res = catch_unwind(AssertUnwindSafe(|| f(&mut src, &mut rep)));
@@ -31,7 +31,7 @@ fn run_one(f: hc::Runner, bytes: &[u8]) -> (bool, usize, Vec<String>) {
    if res.is_err() && !src.rejected {
       failed.push("no_panic".to_string());
    }
-   (src.rejected, src.pos, failed)
+   (src.rejected, src.pos, failed, rep.notes.clone())
 }
 
 fn main() {
@@ -47,12 +47,15 @@ fn main() {
          let name = &args[2];
          let bytes = parse_list(args.get(3).map(|s| s.as_str()).unwrap_or(""));
          let f = reg.iter().find(|(n, _, _)| n == name).expect("unknown harness").1;
-         let (rejected, consumed, failed) = run_one(f, &bytes);
+         let (rejected, consumed, failed, notes) = run_one(f, &bytes);
          if rejected {
             println!("REJECTED input violates generator assumptions");
             std::process::exit(3);
          }
          println!("CONSUMED {}", consumed);
+         for n in &notes {
+            println!("VALUES {}", n);
+         }
          for o in &failed {
             println!("FAILED {}", o);
          }
@@ -76,7 +79,7 @@ fn main() {
          let mut failures: Vec<(String, Vec<u8>)> = vec![];
          loop {
             let bytes: Vec<u8> = idx.iter().enumerate().map(|(p, &i)| alphas[p][i]).collect();
-            let (rej, consumed, failed) = run_one(f, &bytes);
+            let (rej, consumed, failed, _notes) = run_one(f, &bytes);
             if rej {
                rejected += 1;
             } else {
